@@ -1,7 +1,7 @@
 """C05 helper: decode hostile messages in a child process under a hard CPU limit, so that work done
 inside one C call (a regular expression, a C loop) is measured too and a decode that does not come
 back cannot hang the check.  stdin: JSON list of hex strings; stdout: one JSON line per case
-{"i": index, "outcome": "value"|"exception", "cpu_ms": n}, flushed as it goes."""
+{"i": index, "outcome": "value"|"exception", "cpu_ms": n, "mem_kb": peak allocation}, flushed as it goes."""
 import binascii
 import json
 import resource
@@ -16,8 +16,12 @@ def main():
     sys.setrecursionlimit(20000)
     from . import fakes  # noqa: F401
     from txdbus import message
+    import tracemalloc
+    tracemalloc.start()
     for i, hx in enumerate(cases):
         raw = binascii.unhexlify(hx)
+        tracemalloc.reset_peak()
+        base = tracemalloc.get_traced_memory()[0]
         t = time.process_time()
         try:
             message.parseMessage(raw, [])
@@ -27,7 +31,8 @@ def main():
         except Exception:
             out = 'exception'
         ms = int((time.process_time() - t) * 1000)
-        sys.stdout.write(json.dumps({'i': i, 'outcome': out, 'cpu_ms': ms}) + '\n')
+        kb = max(0, tracemalloc.get_traced_memory()[1] - base) // 1024
+        sys.stdout.write(json.dumps({'i': i, 'outcome': out, 'cpu_ms': ms, 'mem_kb': kb}) + '\n')
         sys.stdout.flush()
 
 
